@@ -19,7 +19,10 @@ Inductive mop :=
 | MGetIndex (raw : N)                        (* rows.get_index(text), table // text *)
 | MGetCell (cr : colref) (raw : N)           (* table[col, text] *)
 | MSetCellN (raw : N) (v : N)                (* table[index, text] = v *)
-| MSetSeps (seps : N) (drops_cache : bool).  (* t._sep_count = .. (drops the cache) / t._sep_previous, t._sep_next = .. *)
+| MSetSeps (seps : N) (drops_cache : bool)   (* t._sep_count = .. (drops the cache) / t._sep_previous, t._sep_next = .. *)
+| MSetIdxFrom (j : nat).                     (* t[index] = u[index] for another live table u = table j: the VALUES of u's
+                                                index column at that moment are copied into t's column (numpy assignment
+                                                col[:] = val); the two tables share nothing afterwards *)
 
 Section Multi.
   Variable split : N -> N -> N * option Z * Z.
@@ -34,6 +37,7 @@ Section Multi.
     | MGetCell cr raw => let '(t', r) := step (m_tab s) (OGetCell cr (tok (m_seps s) raw)) in (mkStab (m_seps s) t', r)
     | MSetCellN raw v => let '(t', r) := step (m_tab s) (OSetCellN (tok (m_seps s) raw) v) in (mkStab (m_seps s) t', r)
     | MSetSeps seps d => (mkStab seps (if d then invalidate (m_tab s) else m_tab s), RUnit)
+    | MSetIdxFrom _ => (s, RUnit)      (* resolved by [resolve] before it reaches a single table *)
     end.
 
   (* one table alone *)
@@ -50,11 +54,22 @@ Section Multi.
     | y :: t, S j => y :: upd t j x
     end.
 
+  (* a cross-table assignment becomes the whole-column assignment of the values
+     the other table's index column has now *)
+  Definition resolve (tabs : list stab) (o : mop) : mop :=
+    match o with
+    | MSetIdxFrom j => MOp (OSetIdxCol (match nth_error tabs j with Some sj => t_idx (m_tab sj) | None => [] end))
+    | _ => o
+    end.
+
+  Definition is_cross (o : mop) : bool := match o with MSetIdxFrom _ => true | _ => false end.
+
   (* several tables, steps (table number, operation) in any interleaving *)
   Fixpoint mrun_tabs (tabs : list stab) (steps : list (nat * mop)) : list result :=
     match steps with
     | [] => []
-    | (k, o) :: rest =>
+    | (k, o0) :: rest =>
+        let o := resolve tabs o0 in
         match nth_error tabs k with
         | Some s => snd (sstep s o) :: mrun_tabs (upd tabs k (fst (sstep s o))) rest
         | None => RErr KeyError :: mrun_tabs tabs rest
